@@ -161,6 +161,8 @@ namespace {
       }
       validate(h, w, model);
       rep.count("traces");
+      if (rep.samples.size() < rep.sample_cap and h.pairs.size() >= 4 and (h.observe != 0 or rep.samples.size() < 2))
+         rep.sample(vf::JObj{}.str("history", h.text()).num("declarations", (long long) model.size()).str("address_personality", vf::env::alloc_name(vf::env::Alloc(h.mode()))).done());
       {
          const std::size_t n = model.size();
          std::map<int, int> g;
